@@ -149,7 +149,7 @@ let hevc_decode_obs (data : BinNums.coq_N list) : string =
 
 (* ------------------------------------------------------------------ generated parameter sets (GEN)
    The SERIALISERS are the extracted specification functions of C15 (coq/c15/C15Spec.v nalu_sps / nalu_pps,
-   coq/c15/C15HevcSpec.v hnalu_sps / hnalu_pps: syntax tables of 14496-10 7.3.2 / 23008-2 7.3.2 written from field
+   coq/c15/C15HevcSpec.v hnalu_sps / hnalu_pps, through the frozen copies coq/c19/C19Gen*.v: syntax tables of 14496-10 7.3.2 / 23008-2 7.3.2 written from field
    values, independent of the parsers), their validity predicates (sps_valid ...) select the field values.
    The random choice of field values below is the generator of ocaml/c15_driver.ml (copied: a driver is a single
    file), with the scope of C19's quantifier: picture sizes below 2^16 (the sample entry's 16-bit fields), HEVC bit
@@ -158,10 +158,10 @@ let hevc_decode_obs (data : BinNums.coq_N list) : string =
    not from any parser. *)
 module G = struct
   open BinNums
-  open C15Model
-  open C15Spec
-  open C15HevcModel
-  open C15HevcSpec
+  open C19GenAvcModel
+  open C19GenAvcSpec
+  open C19GenHevcModel
+  open C19GenHevcSpec
   let st = ref 0L
   let seed_rng (s : int) = st := Int64.add (Int64.mul (Int64.of_int s) 0x9E3779B97F4A7C15L) 0x1234567L
   let u64 () : int64 =
